@@ -370,8 +370,8 @@ Definition power_up (d : design) : res vstate :=
 
 (** the design as a total transition system: state = [res vstate] (errors are
     absorbing), output = [res (list value)] *)
-Definition vstep (d : design) (mid : bool) : res vstate -> list value -> res vstate * res (list value) :=
-  let cs := prepare d.(d_conc) in
+Definition vstep_with (cs : prepared) (d : design) (mid : bool)
+  : res vstate -> list value -> res vstate * res (list value) :=
   fun s inp =>
     match s with
     | Err e => (Err e, Err e)
@@ -381,3 +381,6 @@ Definition vstep (d : design) (mid : bool) : res vstate -> list value -> res vst
         | Err e => (Err e, Err e)
         end
     end.
+
+Definition vstep (d : design) (mid : bool) : res vstate -> list value -> res vstate * res (list value) :=
+  vstep_with (prepare d.(d_conc)) d mid.
